@@ -2522,12 +2522,35 @@ class _ExtsHarness(CaseHarness):
 
 
 def kmer_iter_e2e_lemmas(F, rep, rule="L-iter"):
+    _kmer_iter_e2e(F, rep, rule, "string")
+    # ... and over views of a string (forward and reverse-complemented, at an offset), when the driver exported those instances
+    if any(k.startswith("<KmerExtsIter<'_, ") and (", " + SLICE_T + "<'_>> as ") in k for k in F.insts):
+        _kmer_iter_e2e(F, rep, rule, "view")
+        _kmer_iter_e2e(F, rep, rule, "rc-view")
+
+
+def _kmer_iter_e2e(F, rep, rule, cont):
     try:
         dt = DnaT(F)
     except Unsupported as e:
         rep.inconclusive(rule, "DnaString", "role discovery: %s" % e)
         return
-    CONT = "dna_string::DnaString"
+    CONT = "dna_string::DnaString" if cont == "string" else SLICE_T + "<'_>"
+    VST = 1         # views start at base 1 of a backing string that extends 2 bases beyond them
+    flds = [f["name"] for f in F.adts.get(SLICE_T, {}).get("variants", [{}])[0].get("fields", [])] if hasattr(F, "adts") else []
+    order = flds if sorted(flds) == sorted(["dna_string", "start", "length", "is_rc"]) else ["dna_string", "start", "length", "is_rc"]
+
+    def base(i, n):
+        """(lo, hi) terms of base i of the iterated sequence of n bases"""
+        if cont == "string":
+            return var("s", 2 * i), var("s", 2 * i + 1)
+        return view_base_bits("s", VST, n, cont == "rc-view", i)
+
+    def subject(n):
+        if cont == "string":
+            return Ref(Cell(dt.sym("s", n), "seq"))
+        vals = {"dna_string": Ref(Cell(dt.sym("s", n + VST + 2), "back")), "start": usize(VST), "length": usize(n), "is_rc": Int(8, False, val=int(cont == "rc-view"), kind="bool")}
+        return Ref(Cell(Adt(SLICE_T, 0, [vals[k] for k in order]), "seq"))
     ktys = sorted({k.split("<KmerIter<'_, ")[1].split(", " + CONT)[0] for k in F.insts if k.startswith("<KmerIter<'_, ") and (", " + CONT + "> as ") in k})
     if not ktys:
         rep.inconclusive(rule, "instances", "no monomorphic instance of KmerIter over DnaString was exported")
@@ -2541,11 +2564,11 @@ def kmer_iter_e2e_lemmas(F, rep, rule="L-iter"):
             continue
         K, W = kt.K, kt.W
 
-        def lanes(first):
+        def lanes(first, n):
             spec = [ZERO] * W
             for j in range(K):
                 hi, lo = kt.lane_bits(j)
-                spec[hi], spec[lo] = var("s", 2 * (first + j) + 1), var("s", 2 * (first + j))
+                spec[lo], spec[hi] = base(first + j, n)
             return spec
         for iname, ctor in (("KmerIter", "iter_kmers"), ("KmerExtsIter", "iter_kmer_exts")):
             pre = "<%s<'_, %s, %s> as std::iter::Iterator>::" % (iname, kty, CONT)
@@ -2556,18 +2579,18 @@ def kmer_iter_e2e_lemmas(F, rep, rule="L-iter"):
             for n in sorted({max(K - 1, 0), K, K + 1, K + 3}):
                 cnt = max(0, n - K + 1)
                 for ev in ext_vals:
-                    key = "%s/%s/len=%d%s" % (kty, ctor, n, "" if ev is None else "/exts=%02x" % ev)
+                    key = "%s/%s/%slen=%d%s" % (kty, ctor, "" if cont == "string" else cont + "/", n, "" if ev is None else "/exts=%02x" % ev)
 
                     def mk_iter(n=n, ev=ev):
-                        args = [Ref(Cell(dt.sym("s", n), "seq"))]
+                        args = [subject(n)]
                         if ev is not None:
                             args.append(Adt("Exts", 0, [Int(8, False, val=ev)]))
                         r, _ = run_inst(F, ckey, args, _ExtsHarness())
                         return Cell(r, "iter")
 
                     def want_exts(i, n=n, ev=ev, cnt=cnt):
-                        left = [ONE if (ev >> b) & 1 else ZERO for b in range(4)] if i == 0 else _onehot(var("s", 2 * (i - 1)), var("s", 2 * (i - 1) + 1), 0)[:4]
-                        right = [ONE if (ev >> (4 + b)) & 1 else ZERO for b in range(4)] if i == cnt - 1 else _onehot(var("s", 2 * (i + K)), var("s", 2 * (i + K) + 1), 4)[4:]
+                        left = [ONE if (ev >> b) & 1 else ZERO for b in range(4)] if i == 0 else _onehot(base(i - 1, n)[0], base(i - 1, n)[1], 0)[:4]
+                        right = [ONE if (ev >> (4 + b)) & 1 else ZERO for b in range(4)] if i == cnt - 1 else _onehot(base(i + K, n)[0], base(i + K, n)[1], 4)[4:]
                         return left + right
 
                     def check_item(item, i, key):
@@ -2589,7 +2612,7 @@ def kmer_iter_e2e_lemmas(F, rep, rule="L-iter"):
                             return False
                         v = item.fields[0]
                         km = v.fields[0] if ev is not None else v
-                        if not expect_bits(rep, rule, key + "/item=%d" % i, kt.storage_of(km), lanes(i), "%s: item %d of %d is the k-mer of bases %d..%d" % (ctor, i, cnt, i, i + K)):
+                        if not expect_bits(rep, rule, key + "/item=%d" % i, kt.storage_of(km), lanes(i, n), "%s: item %d of %d is the k-mer of bases %d..%d" % (ctor, i, cnt, i, i + K)):
                             return False
                         if ev is not None:
                             ex = v.fields[1]
